@@ -88,6 +88,7 @@ fn profile() -> Profile {
         payload_max: 50,
         // run-time dependent broker decisions have no place in a differential check
         shrink_mps_pct: 0,
+        lost_pubrecs_pct: 0,
         ..Profile::default()
     }
 }
@@ -223,6 +224,47 @@ pub fn exhaustive_inputs() -> Vec<Input> {
     out
 }
 
+/// Packets longer than 64 KiB whose partial writes / reads end on and around byte 65535 (offsets
+/// that no longer fit 16 bits), outbound at every QoS incl. a resumed retransmission, and inbound.
+pub fn large_inputs() -> Vec<Input> {
+    let mut out = Vec::new();
+    let patterns: Vec<Vec<u16>> = vec![vec![65535], vec![65534, 1, 1, 65535], vec![32768], vec![65535, 1, 2], vec![1000, 64535, 1], vec![65530, 3, 3, 3], vec![40000, 25535, 65535]];
+    for qos in 0u8..3 {
+        for (k, pat) in patterns.iter().enumerate() {
+            let publish = Step::Publish(PubSpec { via: (k % 2) as u8, ..PubSpec::simple(qos, 3, 70_000 + k as u32, k as u8) });
+            let first = ConnScript {
+                connect: ConnectSpec::default(),
+                steps: vec![publish, Step::PollIdle { max: 4 }, Step::Publish(PubSpec::simple(1, 2, 3, 7)), Step::PollIdle { max: 4 }],
+                end: EndHow::Drop,
+            };
+            let second = ConnScript {
+                connect: ConnectSpec::default(),
+                steps: vec![Step::PollIdle { max: 6 }, Step::Broker(BrokerAct::AckAll { reverse: false }), Step::PollIdle { max: 6 }, Step::Broker(BrokerAct::AckAll { reverse: false }), Step::PollIdle { max: 6 }],
+                end: EndHow::Drop,
+            };
+            let case = Case { cfg: Cfg { rx: 256, tx: 160_000, ..Cfg::default() }, broker: BrokerMode::Scripted, conns: vec![first, second] };
+            out.push(Input { case, variants: vec![IoCfg { read_chunks: vec![], write_chunks: pat.clone(), pend_first: k % 2 == 1, read_cuts: vec![] }] });
+        }
+    }
+    for (k, pat) in patterns.iter().enumerate() {
+        let case = Case {
+            cfg: Cfg { rx: 80_000, tx: 1024, ..Cfg::default() },
+            broker: BrokerMode::Scripted,
+            conns: vec![ConnScript {
+                connect: ConnectSpec::default(),
+                steps: vec![
+                    Step::Broker(BrokerAct::Deliver { qos: (k % 3) as u8, retain: false, topic: TopicSpec::new(3, 1), payload: PayloadSpec::new(70_000 + k as u32, k as u8), props: vec![], redeliver: None }),
+                    Step::Broker(BrokerAct::Deliver { qos: 1, retain: false, topic: TopicSpec::new(2, 1), payload: PayloadSpec::new(2, 1), props: vec![], redeliver: None }),
+                    Step::PollIdle { max: 8 },
+                ],
+                end: EndHow::Drop,
+            }],
+        };
+        out.push(Input { case, variants: vec![IoCfg { read_chunks: pat.clone(), write_chunks: vec![], pend_first: k % 2 == 0, read_cuts: vec![] }] });
+    }
+    out
+}
+
 pub fn run(ctx: &Ctx) -> i32 {
     let mut agg = Agg::default();
     // exhaustive segmentations of a short stream
@@ -244,6 +286,13 @@ pub fn run(ctx: &Ctx) -> i32 {
         }
     });
     agg.merge(total.into_inner().unwrap());
+    let large = large_inputs();
+    let n_large = large.len();
+    for inp in &large {
+        let o = eval(inp);
+        agg.record(ctx, "c15-input", inp, Eval { violations: o.violations, nontrivial: true, classes: vec!["packet-above-64KiB-split-around-byte-65535"], watchdog: o.watchdog });
+    }
+    agg.extra.insert("large_packet_inputs".into(), serde_json::json!(n_large));
     let cases = ctx.tier.pick(40_000, 1_200_000);
     if agg.failure.is_none() {
         agg.merge(run_prop(ctx, "c15-input", 16, cases, strategy, |inp: &Input| {
@@ -264,7 +313,7 @@ pub fn run(ctx: &Ctx) -> i32 {
         agg,
         Report {
             level: "exploration",
-            rule: "program + scripted/reactive broker generated as in C01 but without cancellations and faults; reference run with whole reads and writes, 5-7 variants per program with generated read chunk patterns (1-byte, alternating, random), partial-write patterns and pend-first scheduling; plus the exhaustive 4096 segmentations of a 13-byte inbound stream (CONNACK + QoS 2 PUBLISH) and the 16384 segmentations of a 15-byte stream containing the shortest packets (CONNACK + PINGRESP + QoS 0 PUBLISH + PINGRESP), incl. every split inside every fixed header. Oracle: delivered messages, every operation result, all sampled handle/session predicates, connect results and the outbound byte stream of each transport are identical to the reference run (and so is the broker's inbound stream). Non-trivial = a variant that splits a fixed header / reads single bytes, or has a packet accepted in >= 3 write pieces; distinct = distinct (program, variants).".into(),
+            rule: "program + scripted/reactive broker generated as in C01 but without cancellations and faults; reference run with whole reads and writes, 5-7 variants per program with generated read chunk patterns (1-byte, alternating, random), partial-write patterns and pend-first scheduling; plus the exhaustive 4096 segmentations of a 13-byte inbound stream (CONNACK + QoS 2 PUBLISH) and the 16384 segmentations of a 15-byte stream containing the shortest packets (CONNACK + PINGRESP + QoS 0 PUBLISH + PINGRESP), incl. every split inside every fixed header; plus 28 programs with a packet above 64 KiB (outbound at QoS 0/1/2 incl. its resumed retransmission, slice and closure payloads; inbound at QoS 0/1/2) whose writes / reads are cut on and around byte 65535. Oracle: delivered messages, every operation result, all sampled handle/session predicates, connect results and the outbound byte stream of each transport are identical to the reference run (and so is the broker's inbound stream). Non-trivial = a variant that splits a fixed header / reads single bytes, or has a packet accepted in >= 3 write pieces; distinct = distinct (program, variants).".into(),
             assumptions: vec!["virtual time is frozen; no cancellations, no transport faults (those are C13 / C11)".into()],
         },
     )
